@@ -177,6 +177,42 @@ static void do_direct(long seq, int pos, Case& c) {
     fail(seq, pos, c, "direct", std::string("throw/") + (ev_n ? band_class() : "nobranch"), INFINITY, tol, std::string("exception: ") + e.what());
   }
   note_band(seq, pos, c, threw);
+  // strictly triangular arguments are nilpotent: exp(zA) = sum_{p<n} z^p A^p / p! is a finite sum for every complex z
+  // (LawNilpotent of the specification). Exercise z = i: a purely imaginary strictly triangular matrix.
+  {
+    bool lower = true, upper = true, nz = false;
+    for (int i = 0; i < n; i++) for (int j = 0; j < n; j++) {
+      if (c.A(i, j) != cd(0, 0)) { nz = true; if (j >= i) lower = false; if (j <= i) upper = false; }
+    }
+    if (nz && (lower || upper) && c.nA <= 32) {
+      typedef std::complex<long double> cl;
+      std::vector<cl> P(n * n, cl(0, 0)), Sum(n * n, cl(0, 0)), Z(n * n);
+      for (int i = 0; i < n; i++) { P[i * n + i] = cl(1, 0); Sum[i * n + i] = cl(1, 0); }
+      for (int i = 0; i < n; i++) for (int j = 0; j < n; j++) Z[i * n + j] = cl(0, 1) * cl(c.A(i, j).real(), c.A(i, j).imag());
+      long double fact = 1;
+      for (int p = 1; p < n; p++) {
+        std::vector<cl> Q(n * n, cl(0, 0));
+        for (int i = 0; i < n; i++) for (int k = 0; k < n; k++) for (int j = 0; j < n; j++) Q[i * n + j] += P[i * n + k] * Z[k * n + j];
+        P = Q; fact *= p;
+        for (int q = 0; q < n * n; q++) Sum[q] += P[q] / fact;
+      }
+      Mat Ez(n); double nEz = 0;
+      for (int j = 0; j < n; j++) { double col = 0; for (int i = 0; i < n; i++) { Ez(i, j) = cd((double)Sum[i * n + j].real(), (double)Sum[i * n + j].imag()); col += std::abs(Ez(i, j)); } nEz = std::max(nEz, col); }
+      for (int i = 0; i < n; i++) for (int j = 0; j < n; j++) gsl_matrix_complex_set(A, i, j, gsl_complex_rect((double)Z[i * n + j].real(), (double)Z[i * n + j].imag()));
+      gsl_matrix_complex_set_all(R, gsl_complex_rect(NAN, NAN));
+      gsl_errs = 0;
+      try {
+        math_detail::matrix_exponential(R, A);
+        Mat Rz(n);
+        for (int i = 0; i < n; i++) for (int j = 0; j < n; j++) { gsl_complex z = gsl_matrix_complex_get(R, i, j); Rz(i, j) = cd(GSL_REAL(z), GSL_IMAG(z)); }
+        double tolz = CFAC * n * EPS * std::max(1.0, c.nA) * nEz;
+        double errz = allfinite(Rz) ? diffnorm(Rz, Ez) : INFINITY;
+        if (!(errz <= tolz)) fail(seq, pos, c, "direct", "accuracy/imaginary-triangular", errz, tolz, "expm(i*N) != sum (iN)^p/p! for a strictly triangular N");
+      } catch (std::exception& e) {
+        fail(seq, pos, c, "direct", "throw/imaginary-triangular", INFINITY, 0, std::string("exception: ") + e.what());
+      }
+    }
+  }
   gsl_matrix_complex_free(bigA); gsl_matrix_complex_free(bigR);
 }
 
